@@ -8,8 +8,10 @@
 (*                                                                         *)
 (* ConnMgrMC.tla (C05/C06) and the scripted transports of the C05/C06/C07  *)
 (* harnesses *assume* this contract of their environment; TcpTransportMC   *)
-(* and the conformance runs of the real TcpTransport over loopback sockets *)
-(* (harness bin tcplegal) check that the TCP transport *guarantees* it.    *)
+(* (also as WebSocket transport), QuicTransportMC and the conformance runs  *)
+(* of the real TcpTransport / WebSocketTransport / QuicTransport over       *)
+(* loopback sockets (harness bin tcplegal) check that the in-tree           *)
+(* transports *guarantee* it.                                               *)
 (*                                                                         *)
 (* Caller obligations (assumed, flagged with the prefix "caller:"):        *)
 (*   A1 connection ids passed to dial()/open() are fresh.                  *)
@@ -68,8 +70,11 @@ InSeq(x, s) == \E i \in 1..Len(s) : s[i] = x
 SubSeq2(s, t) == \A i \in 1..Len(s) : InSeq(s[i], t)
 IdsIn(M, sts) == {cid \in DOMAIN M.c : M.c[cid].st \in sts}
 
-\* index of the requested address whose socket part is `sock`
-WantFor(r, sock) == LET is == {i \in 1..Len(r.socks) : r.socks[i] = sock} IN
+\* An address reported back names a requested address either in full or by its socket part (TCP reports
+\* `<ip|dns>/tcp/<port>`, WebSocket and QUIC the address as it was requested, /p2p included).
+Names(a, r) == InSeq(a, r.socks) \/ InSeq(a, r.addrs)
+\* peer named by the requested address that `sock` stands for
+WantFor(r, sock) == LET is == {i \in 1..Len(r.socks) : r.socks[i] = sock \/ r.addrs[i] = sock} IN
                     IF is = {} THEN "" ELSE r.wants[CHOOSE i \in is : TRUE]
 
 OkIff(M, ret, cond, what, cid) ==
@@ -126,11 +131,13 @@ MonEvent(M, e) ==
   ELSE LET r == M.c[cid] IN
     CASE e.k = "est" ->
          IF e.dir = "out" THEN
-              IF s \notin {"dialing", "negotiating"} THEN Fail(M, Wrong(s), {cid})
+              IF s = "in_neg" THEN Fail(M, "inbound connection reported with a dialer endpoint", {cid})
+              ELSE IF s \notin {"dialing", "negotiating"} THEN Fail(M, Wrong(s), {cid})
               ELSE LET want == IF s = "dialing" THEN r.wants[1] ELSE r.want IN
                    IF want # "" /\ e.peer # want THEN Fail(M, "established with a peer other than the one named in the address", {cid})
-                   ELSE IF ~InSeq(e.addr, r.socks) THEN Fail(M, "established connection reports an address that was not requested", {cid})
+                   ELSE IF ~Names(e.addr, r) THEN Fail(M, "established connection reports an address that was not requested", {cid})
                    ELSE Set(M, cid, "announced")
+         ELSE IF s \in {"dialing", "negotiating"} THEN Fail(M, "outbound connection reported with a listener endpoint", {cid})
          ELSE IF s # "in_neg" THEN Fail(M, IF s = "pin" THEN "inbound connection established without accept_pending()" ELSE Wrong(s), {cid})
               ELSE Set(M, cid, "announced")
     [] e.k = "dial_failure" ->
@@ -139,7 +146,7 @@ MonEvent(M, e) ==
          ELSE Set(M, cid, "failed")
     [] e.k = "opened" ->
          IF s # "opening" THEN Fail(M, Wrong(s), {cid})
-         ELSE IF ~InSeq(e.addr, r.socks) THEN Fail(M, "opened address is not one of the requested addresses", {cid})
+         ELSE IF ~Names(e.addr, r) THEN Fail(M, "opened address is not one of the requested addresses", {cid})
          ELSE IF ~SubSeq2(e.errs, r.addrs) THEN Fail(M, "open error names an address that was not requested", {cid})
          ELSE IF Len(e.errs) >= Len(r.addrs) THEN Fail(M, "open succeeded but every address is reported failed", {cid})
          ELSE [M EXCEPT !.c[cid].st = "opened", !.c[cid].want = WantFor(r, e.addr)]
@@ -185,7 +192,9 @@ Forgive(M) == IF M.bad = "" THEN M
 (* step (not only at quiescence): used for the drift check (MODE=impl) and as an invariant of      *)
 (* TcpTransportMC.                                                                                  *)
 BkExact(M, bk) ==
-  /\ ToSetS(bk.pending_dials) = IdsIn(M, {"dialing"})
+  \* QUIC (after the repair of negotiate()) keeps the address of a connection being negotiated in pending_dials too
+  /\ IdsIn(M, {"dialing"}) \subseteq ToSetS(bk.pending_dials)
+  /\ ToSetS(bk.pending_dials) \subseteq IdsIn(M, {"dialing", "negotiating"})
   /\ ToSetS(bk.opened) = IdsIn(M, {"opened"})
   /\ ToSetS(bk.pending_open) = IdsIn(M, {"announced"})
   /\ ToSetS(bk.pending_inbound) = IdsIn(M, {"pin"})
